@@ -328,3 +328,17 @@ Example C14_resolve_pkh_example :
   resolve_pkh pkh_of (set_bip32 a [(6%N, 9%N)]) 105%N = Some 5%N /\
   resolve_pkh pkh_of a 106%N = None.
 Proof. exact resolve_pkh_example. Qed.
+
+(* repeated updates: C14_update_consistent holds from ANY prior state, so after the last
+   successful update every origin of that descriptor's keys is that descriptor's
+   (BTreeMap::insert overwrites); concretely, in both orders and over a stale record: *)
+Example C14_update_twice_example :
+  let a := mkIn None (Some (mkTxOut 1%N 7%N)) [] None None None [] None None [] [] [] [] None [] [] [] None None [] [] in
+  let st := mkPsbt 1%N 1 [a] in
+  let r := run ex_try ex_interp ex_desc2 ex_flag ex_flag ex_mall in
+  map i_bip32 (p_inputs (r [Update 0 0%N; Update 0 1%N] st)) = [[(1%N, 3%N)]] /\
+  map i_bip32 (p_inputs (r [Update 0 1%N; Update 0 0%N] st)) = [[(1%N, 2%N)]] /\
+  map i_taporigins (p_inputs (r [Update 0 2%N; Update 0 3%N] st)) = [[(1%N, 30%N); (4%N, 31%N)]] /\
+  map i_taporigins (p_inputs (r [Update 0 3%N; Update 0 2%N] st)) = [[(1%N, 20%N); (4%N, 21%N)]] /\
+  map i_taporigins (p_inputs (r [AddTapOrigin 0 1%N 99%N; Update 0 2%N] st)) = [[(1%N, 20%N); (4%N, 21%N)]].
+Proof. exact update_twice_example. Qed.
